@@ -269,6 +269,9 @@ impl Property for Prop {
             "ctor" => {
                 let hl = [usize::MAX, 0, 2, 4, 6, 8];
                 for lo in 0..256u64 {
+                    if crate::expired() {
+                        return;
+                    }
                     let id = ((key << 8) | lo) as u16;
                     for len in 0..=10usize {
                         rep.eval();
@@ -372,6 +375,9 @@ impl Property for Prop {
                     let pdu = gen_pdu(&mut rng, plen, 0);
                     let full = hdr + plen + 2;
                     for bl in 5..=full {
+                        if crate::expired() {
+                            return;
+                        }
                         let storage = if (bl + plen) % 2 == 0 { plen } else { plen + 1 + rng.below(40) };
                         let c = Case { chain: &chain, ptype, label, primed, pdu: &pdu, buf_len: bl, storage, legal };
                         let o = run_case(&c, &mut rng, rep, &replay);
